@@ -125,9 +125,39 @@ pub fn h_linear_last<S: Src>(s: &mut S, n: usize, method: bool) {
     s.check(post_linear_last(a, b, n, d.values()), "linear: last == max(bounds) within 1e-9");
 }
 
+/// Series1::interpolate on 2..=3 strictly ascending finite knots with arbitrary non-NaN ordinates:
+/// exactly the stored ordinate at a knot, NaN outside [first, last]. (The blend between two knots needs a symbolic
+/// divide and multiply, which CBMC does not decide in reasonable time - left to the Verus unit / bounded native check.)
+pub fn h_interpolate_knots<S: Src>(s: &mut S) {
+    match pick_n(s, 3) { 0 | 1 | 2 => h_interpolate_knots_n(s, 2), _ => h_interpolate_knots_n(s, 3) }
+}
+fn h_interpolate_knots_n<S: Src>(s: &mut S, n: usize) {
+    let xs = any_slice(s);
+    let ys = any_slice(s);
+    let k = s.u8() as usize;
+    let outside = s.f64();
+    s.assume(def_all_finite(&xs) && xs[0] < xs[1] && xs[1] < xs[2] && !def_has_nan(&ys));
+    s.assume(k <= n); // k == n: query outside the domain
+    let (xv, yv) = if n == 2 { (vec![xs[0], xs[1]], vec![ys[0], ys[1]]) } else { (vec![xs[0], xs[1], xs[2]], vec![ys[0], ys[1], ys[2]]) };
+    let series = match crate::Series1::try_new(xv, yv) {
+        Ok(v) => v,
+        Err(e) => { core::mem::forget(e); s.check(false, "Series1::try_new accepts ascending finite abscissae of equal length"); return; }
+    };
+    if k < n {
+        let r = series.interpolate(xs[k]);
+        s.check(r.to_bits() == ys[k].to_bits(), "interpolate at a knot returns the stored ordinate exactly");
+    } else {
+        s.assume(!outside.is_nan() && (outside < xs[0] || outside > xs[n - 1]));
+        let r = series.interpolate(outside);
+        s.check(r.is_nan(), "interpolate outside [first, last] is NaN");
+    }
+    core::mem::forget(series);
+}
+
 pub fn dispatch<S: Src>(name: &str, s: &mut S) -> bool {
     match name {
         "vec_helpers" => h_vec_helpers(s),
+        "series_interpolate_knots" => h_interpolate_knots(s),
         "domain_try_from" => h_try_from(s),
         "domain_push" => h_push(s),
         "domain_linear_2" => h_linear(s, 2, true),
@@ -135,6 +165,7 @@ pub fn dispatch<S: Src>(name: &str, s: &mut S) -> bool {
         "domain_linear_4" => h_linear(s, 4, true),
         "domain_linear_last_2" => h_linear_last(s, 2, true),
         "domain_linear_last_3" => h_linear_last(s, 3, true),
+        "linear_space_last_2" => h_linear_last(s, 2, false),
         "linear_space_2" => h_linear(s, 2, false),
         "linear_space_3" => h_linear(s, 3, false),
         "linear_space_4" => h_linear(s, 4, false),
@@ -163,6 +194,7 @@ mod proofs {
     #[kani::proof_for_contract(linear_space)] #[kani::unwind(6)]
     fn contract_linear_space() { let a: f64 = kani::any(); let b: f64 = kani::any(); kani::cover!(a > b); linear_space(a, b, 2); }
 
+    #[kani::proof] #[kani::unwind(5)] fn series_interpolate_knots() { h_interpolate_knots(&mut Sym); kani::cover!(true); }
     #[kani::proof] #[kani::unwind(5)] fn vec_helpers() { h_vec_helpers(&mut Sym); kani::cover!(true); }
     #[kani::proof] #[kani::unwind(5)] fn domain_try_from() { h_try_from(&mut Sym); kani::cover!(true); }
     #[kani::proof] #[kani::unwind(5)] fn domain_push() { h_push(&mut Sym); kani::cover!(true); }
@@ -171,6 +203,7 @@ mod proofs {
     #[kani::proof] #[kani::unwind(6)] fn domain_linear_4() { h_linear(&mut Sym, 4, true); kani::cover!(true); }
     #[kani::proof] #[kani::unwind(6)] fn domain_linear_last_2() { h_linear_last(&mut Sym, 2, true); kani::cover!(true); }
     #[kani::proof] #[kani::unwind(6)] fn domain_linear_last_3() { h_linear_last(&mut Sym, 3, true); kani::cover!(true); }
+    #[kani::proof] #[kani::unwind(6)] fn linear_space_last_2() { h_linear_last(&mut Sym, 2, false); kani::cover!(true); }
     #[kani::proof] #[kani::unwind(6)] fn linear_space_2() { h_linear(&mut Sym, 2, false); kani::cover!(true); }
     #[kani::proof] #[kani::unwind(6)] fn linear_space_3() { h_linear(&mut Sym, 3, false); kani::cover!(true); }
     #[kani::proof] #[kani::unwind(6)] fn linear_space_4() { h_linear(&mut Sym, 4, false); kani::cover!(true); }
